@@ -118,7 +118,8 @@ func matchesEmpty(n node, visiting map[*strct]bool) bool {
 		case groupMatchZeroOrOne, groupMatchZeroOrMore:
 			return true
 		case groupMatchNonEmpty:
-			return false
+			// "Non-empty" is judged by the values the group yields, not by the tokens it consumes.
+			return yieldsWithoutConsuming(n.expr, visiting)
 		default:
 			return matchesEmpty(n.expr, visiting)
 		}
@@ -130,6 +131,34 @@ func matchesEmpty(n node, visiting map[*strct]bool) bool {
 		return n.s == "" && n.t == lexer.EOF // An empty, untyped literal matches any token, including EOF, which is not consumed.
 	}
 	// Other literals and references, and negations, consume a token; custom productions are assumed to.
+	return false
+}
+
+// yieldsWithoutConsuming reports whether n can match without consuming a token and still yield a value,
+// which is all a "( ... )!" group asks for: a capture of something that matched nothing yields one, as do
+// a nested production that matched nothing, a reference to EOF and the empty literal.
+func yieldsWithoutConsuming(n node, visiting map[*strct]bool) bool {
+	switch n := n.(type) {
+	case *strct, *union, *capture, *reference, *literal:
+		return matchesEmpty(n, visiting)
+	case *disjunction:
+		for _, alt := range n.nodes {
+			if yieldsWithoutConsuming(alt, visiting) {
+				return true
+			}
+		}
+	case *sequence:
+		yields := false
+		for s := n; s != nil; s = s.next {
+			if !matchesEmpty(s.node, visiting) {
+				return false
+			}
+			yields = yields || yieldsWithoutConsuming(s.node, visiting)
+		}
+		return yields
+	case *group:
+		return yieldsWithoutConsuming(n.expr, visiting)
+	}
 	return false
 }
 
